@@ -213,6 +213,14 @@ class BqModels(Models):
         names = [strip_turbofish(x) for x in (n, t.get("callee_full") or "", (t.get("resolved") or {}).get("path") or "") if x]
         S = lambda rx: any(re.search(rx, nm) for nm in names)
         D = lambda i: ip.deconst(ip.deref_val(st, args[i])) if i < len(args) else TOP
+
+        def DD(i):
+            # a hashed input may arrive behind several references (`for part in parts { h.update(part) }` with parts: &[&[u8]])
+            v = D(i)
+            for _ in range(3):
+                if v is not None and v[0] in ("ref", "sl", "cref"):
+                    v = ip.deconst(ip.deref_val(st, v))
+            return v
         if __import__("os").environ.get("BQ_TRACE"):
             print("  " * depth, "call", names[0][-90:], [str(D(i))[:80] for i in range(len(args))])
 
@@ -441,13 +449,13 @@ class BqModels(Models):
         if S(r"Digest>::new$"):
             return ("hs", ())
         if S(r"(Digest|Update)>::(update|chain_update|chain)$") and len(args) == 2 and D(0)[0] == "hs":
-            nv = ("hs", D(0)[1] + (describe(D(1)),))
+            nv = ("hs", D(0)[1] + (describe(DD(1)),))
             if args[0][0] in ("ref", "sl"):
                 store(0, nv)
                 return ("st", ())
             return nv
         if S(r"Digest>::digest$") and len(args) == 1 and re.search(r"Sha512|CoreWrapper", " ".join(names) + " " + str(t.get("gargs") or "")):
-            return ("hd", (describe(D(0)),))          # one-shot form: new().chain_update(data).finalize()
+            return ("hd", (describe(DD(0)),))          # one-shot form: new().chain_update(data).finalize()
         if S(r"(Digest|FixedOutput)>::(finalize|finalize_fixed)$") and args and D(0)[0] == "hs":
             return ("hd", D(0)[1])
         if S(r"core::convert::AsRef<\[u8; 64\]>>::as_ref$|generic_array::GenericArray.*(as_ref|as_slice|deref)$|core::convert::Into<\[u8; 64\]>>::into$|core::convert::From<.*GenericArray.*>::from$") and args and D(0)[0] == "hd":
